@@ -24,9 +24,10 @@ partial def jDetail (j : Json) : Detail :=
   match j with
   | .null => .null
   | _ =>
-    match j.getObjVal? "s" with
-    | .ok s => .leaf (jText s)
-    | .error _ => .node (jKvs (jField j "d"))
+    match j.getObjVal? "s", j.getObjVal? "l" with
+    | .ok s, _ => .leaf (jText s)
+    | _, .ok l => .list ((jList l).map jDetail)
+    | _, _ => .node (jKvs (jField j "d"))
 partial def jKvs (j : Json) : List (Text × Detail) :=
   (jList j).map fun kv => match jList kv with
     | [k, v] => (jText k, jDetail v)
@@ -69,9 +70,15 @@ def jStep (j : Json) : Step :=
   | .error _ => .raises (jRaised (jField j "raises"))
 
 def jUser (j : Json) : UserCode :=
-  match j.getObjVal? "plain" with
-  | .ok s => .plain (jStep s)
-  | .error _ =>
+  match j.getObjVal? "plain", j.getObjVal? "hook" with
+  | .ok s, _ => .plain (jStep s)
+  | _, .ok h =>
+    match jList h with
+    | [site, level, r, body] =>
+      .hook (if site == Json.str "return_object" then .returnObject else .methodCall)
+        (if level == Json.str "service" then .service else .application) (jRaised r) (jStep body)
+    | _ => .plain (.value [])
+  | _, _ =>
     match jList (jField j "gen") with
     | [a, .null] => .gen (jStep a) none
     | [a, r] => .gen (jStep a) (some (jRaised r))
@@ -107,6 +114,7 @@ partial def detailJson : Detail → Json
   | .null => Json.null
   | .leaf t => Json.mkObj [("s", textJson t)]
   | .node kvs => Json.mkObj [("d", kvsJson kvs)]
+  | .list items => Json.mkObj [("l", Json.arr (items.map detailJson).toArray)]
 partial def kvsJson (kvs : List (Text × Detail)) : Json :=
   Json.arr (kvs.map fun (k, d) => Json.arr #[textJson k, detailJson d]).toArray
 end
@@ -161,8 +169,9 @@ def step (j : Json) : Json :=
   | "status" =>
     Json.mkObj [("ok", statusOf F (jProto (jField j "proto")) (jCls (jField j "cls")) (jText (jField j "code")))]
   | "process" =>
-    let c := process F (jUser (jField j "user"))
-    Json.mkObj [("out_object", outObjJson c.outObject), ("out_error", errJson c.outError)]
+    match process F (jUser (jField j "user")) with
+    | some c => Json.mkObj [("out_object", outObjJson c.outObject), ("out_error", errJson c.outError)]
+    | none => Json.mkObj [("escapes", true)]
   | "encode" =>
     match encodeFault F (jProto (jField j "proto")) (jFault (jField j "f")) with
     | some w => Json.mkObj [("ok", wireJson w)]
